@@ -122,6 +122,7 @@ type spec struct {
 	fn    string   // function name
 	fuel  []string // fuel (Lean expression over the parameters) of the i-th `for` loop
 	slice *sliceSpec
+	lean  string // name of the generated definition when it is not fn (methods of the same name on several receivers; dt.go)
 }
 
 // slice mode: only one expression of a function with effects is translated
@@ -144,6 +145,14 @@ var whitelist = []spec{
 	{pkg: "datafile", recv: "DataFile", fn: "readToBuf", fuel: []string{"file.size + 1"}},
 	{pkg: "index", fn: "nextPowerOfTwo"},
 	{pkg: "fio", recv: "MMap", fn: "remap", slice: &sliceSpec{assignTo: "m.endOff", lean: "remap_endOff", guard: "remap_covered"}},
+	// round 3b (dt.go): the redis-layer codecs of datatype/meta.go
+	{pkg: "datatype", recv: "metadata", fn: "encode", lean: "metadata_encode"},
+	{pkg: "datatype", fn: "decodeMetadata"},
+	{pkg: "datatype", recv: "hashInternalKey", fn: "encode", lean: "hashInternalKey_encode"},
+	{pkg: "datatype", recv: "setInternalKey", fn: "encode", lean: "setInternalKey_encode"},
+	{pkg: "datatype", recv: "listInternalKey", fn: "encode", lean: "listInternalKey_encode"},
+	{pkg: "datatype", recv: "zsetInternalKey", fn: "encodeWithMember", lean: "zsetInternalKey_encodeWithMember"},
+	{pkg: "datatype", recv: "zsetInternalKey", fn: "encodeWithScore", lean: "zsetInternalKey_encodeWithScore"},
 }
 
 // abstract parameter of a generated definition (something the Go function takes from its
@@ -1222,8 +1231,8 @@ func (t *tr) expr(e ast.Expr) (lx, kind) {
 			if obj != nil && obj == t.recvObj {
 				ty := t.typeOfExpr(e)
 				k := t.kindOf(ty, e)
-				if !k.isInt() {
-					failAt(e, "receiver field %s has non-integer type", src(e))
+				if !k.isInt() && k.k != kBytes { // []byte fields: dt.go (read only, like []byte parameters)
+					failAt(e, "receiver field %s is neither an integer nor a []byte", src(e))
 				}
 				return lx{s: t.recvField(v.Sel.Name, k), atom: true}, k
 			}
@@ -1636,6 +1645,9 @@ func (t *tr) writeSites(x ast.Node) []*ast.Ident {
 				add(b[pr.write].(ast.Expr))
 			}
 		}
+		if dst := dtWriteDest(v); dst != nil { // dt.go: PutUint64/32/16
+			add(dst)
+		}
 	case *ast.BlockStmt:
 		for i := range v.List {
 			for _, ef := range effects {
@@ -1939,6 +1951,12 @@ func (t *tr) simple(s ast.Stmt, o *out, ind string, rest []ast.Stmt) bool {
 		ce, ok := v.X.(*ast.CallExpr)
 		if !ok {
 			return false
+		}
+		if name, rhs, ok := t.dtWriteStmt(ce); ok { // dt.go: copy(b[lo:hi], e), PutUint64/32/16(b[lo:hi], v)
+			t.noPending(s)
+			addUpd(name, name+" := "+rhs)
+			flush()
+			return true
 		}
 		id, ok := ce.Fun.(*ast.Ident)
 		if !ok || id.Name != "copy" || len(ce.Args) != 2 {
@@ -2885,6 +2903,9 @@ func translate(p *pkgInfo, sp spec) (text string, err error) {
 		return "", fmt.Errorf("function %s is declared more than once in package %s", key, p.dir)
 	}
 	t := &tr{p: p, sp: sp, leanName: p.name + "." + sp.fn}
+	if sp.lean != "" {
+		t.leanName = p.name + "." + sp.lean
+	}
 	t.setup(fd)
 	if sp.slice != nil {
 		return t.sliceFn(), nil
@@ -2946,6 +2967,7 @@ func main() {
 	sb.WriteString("   hand-written model are proved in XixiKV/Proofs/TransEq.lean and TransEq2.lean. -/\n")
 	sb.WriteString("namespace XixiKV.Generated.Trans\n\n")
 	sb.WriteString(prelude)
+	sb.WriteString(dtPrelude) // dt.go
 	for _, dir := range order {
 		p := pkgs[dir]
 		fmt.Fprintf(&sb, "\n/-! ## package %s (%s) -/\n", p.name, dir)
